@@ -459,6 +459,10 @@ class CallMixin(object):
             if isinstance(m, StoreMat):
                 self.resize(m, dims[0], node=n)
             return m
+        if td.kind == 'obj' and not self.class_of(td).ctors and len(arg_nodes) == 1 and strip(arg_nodes[0]).get('kind') == 'InitListExpr':
+            return self.ev(strip(arg_nodes[0]))      # aggregate initialisation T{a, b, c}
+        if td.kind == 'obj' and not self.class_of(td).ctors and len(arg_nodes) > 1:
+            return InitList([self.ev(a) for a in arg_nodes], n)
         if td.kind == 'obj':
             obj = self.make_obj(td, self.fresh('tmpo') + '__')
             obj.is_temp = True
